@@ -359,8 +359,8 @@ func (ex *Exec) mIndex(s, sep *Str, last bool) Value {
 }
 
 func (ex *Exec) mIndexAny(fr *frame, s, chars *Str, last bool) Value {
+	// with an all-ASCII set the real function compares bytes
 	ex.requireASCII(fr, chars)
-	ex.requireASCII(fr, s)
 	if last {
 		for i := len(s.B) - 1; i >= 0; i-- {
 			if ex.X.Branch(ex.inSet(s.B[i], chars)) {
